@@ -1,1 +1,12 @@
-// driver placeholder
+/// Driver: the private counter table of `Sketch`.
+pub mod verif {
+    use super::*;
+    pub fn table_len(s: &Sketch) -> usize { s.cms.table.len() }
+    pub fn table_word(s: &Sketch, i: usize) -> u64 { s.cms.table[i] }
+    pub fn set_table_word(s: &mut Sketch, i: usize, w: u64) { s.cms.table[i] = w; }
+    pub fn bitmap_len(s: &Sketch) -> usize { s.bloom_filter.bitmap.len() }
+    pub fn cms_increment(s: &mut Sketch, h: u64) { s.cms.increment(h); }
+    pub fn cms_estimate(s: &Sketch, h: u64) -> u8 { s.cms.estimate(h) }
+    pub fn cms_reset(s: &mut Sketch) { s.cms.reset(); }
+    pub fn additions(s: &Sketch) -> usize { s.additions }
+}
